@@ -23,6 +23,7 @@ import (
 	"testing"
 	"time"
 
+	"github.com/zeromicro/go-zero/core/proc"
 	"github.com/zeromicro/go-zero/core/stores/cache"
 	"github.com/zeromicro/go-zero/core/stores/redis"
 	"github.com/zeromicro/go-zero/core/syncx"
@@ -1038,10 +1039,24 @@ func TestVerifC06CacheConcurrent(t *testing.T) {
 
 // A failed invalidation is retried by the background cleaner (1 s timing wheel).  Real
 // time is unavoidable here: thorough tier only, and a budget overrun is inconclusive.
-func TestVerifC06CleanerRetry(t *testing.T) {
-	st := verifkit.New("cleaner")
+func TestVerifC06CleanerRetry(t *testing.T) { c06CleanerRetry(t, "cleaner", false) }
+
+// The same history in a process that has been told to shut down (proc.Shutdown: the shutdown
+// listeners have run, among them the cleaner's drain) and goes on serving during its grace period,
+// as a go-zero service does between SIGTERM and exit.  Own unit = own process: the listeners fire
+// once per process.
+func TestVerifC06CleanerRetryAfterShutdownNotice(t *testing.T) {
+	c06CleanerRetry(t, "cleaner-after-shutdown", true)
+}
+
+func c06CleanerRetry(t *testing.T, unit string, afterShutdown bool) {
+	st := verifkit.New(unit)
 	defer st.Flush()
 	env := kit.GetEnv(t)
+	if afterShutdown {
+		proc.Shutdown()
+		st.Class("lifecycle:shutdown-listeners-have-run")
+	}
 	// The retry is due 1 s after the failed invalidation (a second one 5 s later).  The budget
 	// is >= 10x that, with a healthy store throughout, so an overrun is a verdict, not a
 	// scheduling accident: the stale entry would be served until its TTL (1 h here) runs out.
